@@ -299,26 +299,36 @@ def r06_3(q, R, spec):
         chain_form = coll(("each", l0, ("struct", "JarSuperProv", (("super_classes", coll(("each", l1, ("tuple", (
             U.parse(sp_["map_insert_key"], env), coll(("each", l2, U.parse(sp_["set_insert"], env)))))))),))))
         is_chain = res == chain_form
-        R.inst(rid, "JarSuperProv::remap:loops", is_chain or fors == [U.parse(x, env) for x in sp_["loops"]], sp=b["sp"], expect=sp_["loops"],
-               got=[U.show(f) for f in fors] or U.show(res)[:200], detail="every provider / class / super class, in the stored order")
         ok = is_chain
+        set_chain = coll(("each", l2, U.parse(sp_["set_insert"], env)))
+        map_chain = coll(("each", l1, ("tuple", (U.parse(sp_["map_insert_key"], env), set_chain))))
         got = [U.show(res)[:300]] if is_chain else []
         if res and res[0] == "local":
             pushes = U.mutations_of(b["body"], res[1])
             if len(pushes) == 1 and pushes[0].get("name") == "push" and U.cond_terms(nz, b["body"], pushes[0]) == []:
                 v = nz.term(pushes[0]["args"][0])
-                if v[0] == "struct" and v[1] == "JarSuperProv" and dict(v[2]).get("super_classes", ("?",))[0] == "local":
+                if v[0] == "struct" and v[1] == "JarSuperProv" and dict(v[2]).get("super_classes") == map_chain:
+                    # outer level as a loop, the two inner levels as the element-wise image
+                    got.append("push(JarSuperProv { super_classes: %s })" % U.show(map_chain)[:200])
+                    ok = True
+                elif v[0] == "struct" and v[1] == "JarSuperProv" and dict(v[2]).get("super_classes", ("?",))[0] == "local":
                     ml = dict(v[2])["super_classes"][1]
                     mins = U.mutations_of(b["body"], ml)
                     if len(mins) == 1 and mins[0].get("name") == "insert" and U.cond_terms(nz, b["body"], mins[0]) == []:
                         k, sv = nz.term(mins[0]["args"][0]), nz.term(mins[0]["args"][1])
                         got.append("map.insert(%s, %s)" % (U.show(k), U.show(sv)))
-                        if sv[0] == "local" and k == U.parse(sp_["map_insert_key"], env):
+                        if sv == set_chain and k == U.parse(sp_["map_insert_key"], env):
+                            ok = True          # the innermost level as `supers.iter().map(..).collect()`
+                        elif sv[0] == "local" and k == U.parse(sp_["map_insert_key"], env):
                             sins = U.mutations_of(b["body"], sv[1])
                             if len(sins) == 1 and sins[0].get("name") == "insert" and U.cond_terms(nz, b["body"], sins[0]) == []:
                                 e = nz.term(sins[0]["args"][0])
                                 got.append("set.insert(%s)" % U.show(e))
                                 ok = e == U.parse(sp_["set_insert"], env)
+        # each level is a `for` loop or the element-wise image (`.iter().map(..).collect()`); the levels spelled as chains were compared above
+        want_fors = [l0, l1, l2]
+        R.inst(rid, "JarSuperProv::remap:loops", is_chain or (fors == want_fors[:len(fors)] and (len(fors) == 3 or ok)), sp=b["sp"], expect=sp_["loops"],
+               got=[U.show(f) for f in fors] or U.show(res)[:200], detail="every provider / class / super class, in the stored order")
         R.inst(rid, "JarSuperProv::remap:names-through-map_class", ok, sp=b["sp"],
                expect=["map.insert(%s, <set>)" % sp_["map_insert_key"], "set.insert(%s)" % sp_["set_insert"]], got=got,
                detail="class and super-class names are both re-expressed; nothing is skipped")
